@@ -151,6 +151,9 @@ def shard(a):
     res = core.Result()
     name = a['mod']
     core.drive(prop, strategy(name), a['n'], (a['seed'], 'C04', name), res, shrink_skip=a['known'])
+    for v in gen.edge_pool(name) + gen.boundary_pool(name):
+        # every character of the class at the first / last positions, every two-digit prefix (range-table boundaries)
+        prop({'mod': name, 'x': v, 'fopts': {}}, res)
     res.notes['accepted_per_module'] = {name: res.hist['accepted']}
     return res
 
